@@ -1,6 +1,7 @@
 package PVM
 
 import (
+	"math"
 	"math/bits"
 
 	"github.com/New-JAMneration/JAM-Protocol/internal/types"
@@ -37,6 +38,10 @@ func Psi_M(
 	}
 
 	addition.Program = &program
+
+	// the machine's gas counter is signed (Z_G); a limit above its range cannot be
+	// spent anyway, so it is clamped instead of wrapping to a negative counter
+	gas = min(gas, types.Gas(math.MaxInt64))
 
 	host := NewHost(&program, registers, &memory, Gas(gas), addition, omegas)
 	psiHResult := host.HostCall(counter, 0)
